@@ -29,7 +29,9 @@ static const char *const OP_NAME[NOPS] = {"INIT", "CLEANUP", "ZERO", "SETKEY", "
 enum {
     F_NULLOBJ = 1, F_NULLA = 2, F_NULLOUT = 4, F_NULLB = 8, F_INPLACE = 16,
     F_INJECTED = 32,        // this op was inserted as an invalid-call fault (C14 differential strips it)
-    F_JUNKREGS = 64         // call through the junk-register thunk (INIT)
+    F_JUNKREGS = 64,        // call through the junk-register thunk (INIT)
+    F_CHAIN = 128           // the input of this data call is the OUTPUT of operation `src` (a packet travelling to another host);
+                            // if `expect` >= 0 the output must equal the INPUT of operation `expect` (the original plaintext)
 };
 
 struct Op {
@@ -41,6 +43,8 @@ struct Op {
     int prefill = 0;            // INIT: class of prior handle content (0 junk,1 zeros,2 0xFF,3 ptr to live block,4 ptr to guard page,5 keep previous bytes)
     uint32_t flags = 0;
     int delta = 0;              // single-block: output = input + delta
+    int src = -1, expect = -1;  // F_CHAIN
+    uint32_t srcoff = 0;        // F_CHAIN: offset into the source operation's output (the receiver cuts the packet its own way)
     uint32_t place = 0;         // placement bits: 3 x (2 bit mode + 6 bit align) for out,in,aux
     Bytes a, b;
 };
@@ -58,6 +62,7 @@ static inline std::string op_to_line(const Op &o) {
     if (o.failalloc) s << " failalloc=" << o.failalloc;
     if (o.flags) s << " flags=" << o.flags;
     if (o.delta) s << " delta=" << o.delta;
+    if (o.flags & F_CHAIN) s << " src=" << o.src << " expect=" << o.expect << " srcoff=" << o.srcoff;
     if (o.place) s << " place=" << o.place;
     if (!o.a.empty()) s << " a=" << hex(o.a);
     if (!o.b.empty()) s << " b=" << hex(o.b);
@@ -92,6 +97,9 @@ static inline bool parse_op_line(const std::string &ln, Op &o) {
         else if (k == "failalloc") o.failalloc = atoi(v.c_str());
         else if (k == "flags") o.flags = (uint32_t)strtoul(v.c_str(), 0, 10);
         else if (k == "delta") o.delta = atoi(v.c_str());
+        else if (k == "src") o.src = atoi(v.c_str());
+        else if (k == "expect") o.expect = atoi(v.c_str());
+        else if (k == "srcoff") o.srcoff = (uint32_t)strtoul(v.c_str(), 0, 10);
         else if (k == "place") o.place = (uint32_t)strtoul(v.c_str(), 0, 10);
         else if (k == "a") o.a = unhex(v);
         else if (k == "b") o.b = unhex(v);
@@ -107,6 +115,15 @@ static inline bool parse_slots_line(const std::string &ln, Plan &p) {
     return true;
 }
 
+// erase ops [a,b) and keep F_CHAIN references consistent (a reference into the erased range becomes dangling = -1, which the interpreter skips)
+static inline void erase_ops(Plan &p, size_t a, size_t b) {
+    p.ops.erase(p.ops.begin() + a, p.ops.begin() + b);
+    for (auto &o : p.ops) if (o.flags & F_CHAIN) {
+        auto fix = [&](int &r) { if (r < 0) return; if ((size_t)r >= b) r -= (int)(b - a); else if ((size_t)r >= a) r = -1; };
+        fix(o.src); fix(o.expect);
+    }
+}
+
 // human-readable one-line summary of an op (for reports and evidence samples)
 static inline std::string op_brief(const Plan &p, const Op &o) {
     std::ostringstream s;
@@ -117,7 +134,7 @@ static inline std::string op_brief(const Plan &p, const Op &o) {
     case OP_SETKEY: case OP_SETTKEY: case OP_SETTWEAK: case OP_SETCTR:
         s << ",len=" << o.size; if (o.flags & F_NULLA) s << ",NULL"; else if (o.a.size() <= 16) s << "," << hex(o.a);
         if (o.rounds) s << ",r=" << o.rounds << ",m=" << o.mode; break;
-    case OP_ENC: case OP_PENC: case OP_PDEC: s << ",n=" << o.size; if (o.flags & F_INPLACE) s << ",inplace"; break;
+    case OP_ENC: case OP_PENC: case OP_PDEC: s << ",n=" << o.size; if (o.flags & F_INPLACE) s << ",inplace"; if (o.flags & F_CHAIN) s << ",input=output-of-#" << o.src << "+" << o.srcoff; break;
     default: break;
     }
     if (o.flags & F_NULLOBJ) s << ",obj=NULL";
